@@ -15,8 +15,8 @@ use std::collections::BTreeMap;
 
 pub const PROP: Property = Property { id: "C13", run, finish, shards: |_| 16, expect_s: |t| t.of(20, 200) };
 
-const NAMES: [&str; 4] = ["Alpha", "beta", "Gamma_3", "δ"];
-const FIELDS: [&str; 5] = ["a", "b", "field_1", "Name", "ключ"];
+const NAMES: [&str; 7] = ["Alpha", "beta", "Gamma_3", "δ", "", "a.b", "beta"];
+const FIELDS: [&str; 14] = ["a", "b", "field_1", "Name", "ключ", "c", "d", "e", "f", "g", "h", "name", "", "a.b"];
 
 #[derive(Clone, Debug)]
 pub enum M {
@@ -479,7 +479,8 @@ fn gen(rng: &mut Rng, depth: usize, sc: &[M]) -> M {
         return sc[rng.below(sc.len())].clone();
     }
     let d = depth - 1;
-    let n = rng.below(4);
+    // mostly small containers, sometimes wide ones (more entries than any inline buffer would hold)
+    let n = if rng.chance(1, 25) { 9 + rng.below(40) } else { rng.below(4) };
     let name = NAMES[rng.below(NAMES.len())];
     let var = NAMES[rng.below(NAMES.len())];
     let idx = rng.below(5) as u32;
@@ -548,6 +549,30 @@ fn run(ctx: &mut Ctx) {
             }
         }
     }
+    // wide containers: 64 elements / 14 fields / 40 map entries, and a byte array next to the same bytes as a sequence
+    if ctx.mine() {
+        let many: Vec<M> = (0..64).map(|i| M::I32(i * 3 - 50)).collect();
+        let fields: Vec<(&'static str, M)> = FIELDS.iter().enumerate().filter(|(i, _)| *i != 12).map(|(i, f)| (*f, M::U16(i as u16))).collect();
+        let entries: Vec<(M, M)> = (0..40).map(|i| (M::Str(format!("key{i:02}")), M::I64(i))).collect();
+        let bytes: Vec<u8> = (0..=255u8).collect();
+        for m in [
+            M::Seq(many.clone()), M::Tuple(many.clone()), M::TupleStruct("Alpha", many.clone()), M::TupleVariant("E", 1, "beta", many.clone()),
+            M::Struct("Alpha", fields.clone()), M::StructVariant("E", 2, "δ", fields.clone()), M::Map(entries.clone()),
+            M::Bytes(bytes.clone()), M::Seq(bytes.iter().map(|b| M::U8(*b)).collect()),
+            M::Map(vec![(M::Str("dup".into()), M::I8(1)), (M::Str("other".into()), M::I8(2)), (M::Str("dup".into()), M::I8(3))]),
+            M::NewtypeStruct("Alpha", Box::new(M::Some(Box::new(M::Unit)))), M::Some(Box::new(M::NewtypeStruct("beta", Box::new(M::None)))),
+            M::Char('é'), M::Char('\u{1F600}'), M::Str("\u{0}".into()),
+        ] {
+            judge(ctx, &m, "wide-containers");
+            judge(ctx, &M::Struct("Wrap", vec![("inner", m.clone()), ("after", M::Bool(true))]), "wide-containers");
+        }
+        // ten levels of nesting through every wrapper kind
+        let mut deep = M::I128(i64::MAX as i128 + 12_345);
+        for i in 0..12 {
+            deep = wrap_all(&deep).swap_remove(i % 13);
+        }
+        judge(ctx, &deep, "deep-nesting");
+    }
     // empty containers of every kind
     if ctx.mine() {
         for m in [M::Seq(vec![]), M::Tuple(vec![]), M::TupleStruct("Alpha", vec![]), M::TupleVariant("E", 0, "beta", vec![]), M::Map(vec![]), M::Struct("Alpha", vec![]), M::StructVariant("E", 0, "beta", vec![])] {
@@ -560,7 +585,7 @@ fn run(ctx: &mut Ctx) {
     // random models to depth 5
     let mut rng = ctx.rng.clone();
     for _ in 0..ctx.tier.of(150_000, 1_500_000) {
-        let depth = 1 + rng.below(5);
+        let depth = if rng.chance(1, 20) { 6 + rng.below(5) } else { 1 + rng.below(5) };
         let m = gen(&mut rng, depth, &sc);
         judge(ctx, &m, "random");
     }
